@@ -241,6 +241,8 @@ val w32 : z -> z
 
 val w64 : z -> z
 
+val s32 : z -> z
+
 val s64 : z -> z
 
 val add64 : z -> z -> z
@@ -841,3 +843,152 @@ val empty_enc : val0 -> bool
 val representable : val0 -> bool
 
 val keys_distinct : val0 -> bool
+
+val ctz_pos : positive -> z
+
+val ctz : z -> z -> z
+
+type json_err =
+| JErrSyntax
+| JErrUnexpectedEOF
+| JErrType
+| JErrOverflow
+| JErrOther
+
+val index_byte_from : z -> bytes -> z -> z
+
+val index_byte : bytes -> z -> z
+
+val ctz64 : z -> z
+
+val chunks64_fuel : nat -> bytes -> z list
+
+val chunks64 : bytes -> z list
+
+val json_validAsciiPrint : z
+
+val json_noBackslash : z
+
+val json_Undefined : z
+
+val json_Null : z
+
+val json_False : z
+
+val json_True : z
+
+val json_Uint : z
+
+val json_Int : z
+
+val json_Float : z
+
+val json_String : z
+
+val json_Unescaped : z
+
+val json_Array : z
+
+val json_Object : z
+
+val json_sp : z
+
+val json_ht : z
+
+val json_nl : z
+
+val json_cr : z
+
+val json_lsb : z
+
+val json_msb : z
+
+val json_ParseFlags_has : z -> z -> bool
+
+val json_skipSpacesN : bytes -> bytes * z
+
+val json_skipSpaces : bytes -> bytes
+
+val json_trimTrailingSpacesN : nat -> bytes -> bytes option
+
+val json_trimTrailingSpaces : nat -> bytes -> bytes option
+
+val json_internalParseFlags : nat -> bytes -> z option
+
+val json_hasNullPrefix : bytes -> bool
+
+val json_hasTruePrefix : bytes -> bool
+
+val json_hasFalsePrefix : bytes -> bool
+
+val json_decoder_parseFalse :
+  z -> bytes -> ((bytes * bytes) * z) * json_err option
+
+val json_decoder_parseNull :
+  z -> bytes -> ((bytes * bytes) * z) * json_err option
+
+val json_decoder_parseNumber :
+  nat -> z -> bytes -> (((bytes * bytes) * z) * json_err option) option
+
+val json_decoder_parseUintHex : z -> bytes -> (z * bytes) * json_err option
+
+val json_decoder_parseUnicode : z -> bytes -> (z * z) * json_err option
+
+val json_decoder_parseString :
+  nat -> z -> bytes -> (((bytes * bytes) * z) * json_err option) option
+
+val json_decoder_parseTrue :
+  z -> bytes -> ((bytes * bytes) * z) * json_err option
+
+val json_decoder_parseArray :
+  nat -> z -> bytes -> (((bytes * bytes) * z) * json_err option) option
+
+val json_decoder_parseObject :
+  nat -> z -> bytes -> (((bytes * bytes) * z) * json_err option) option
+
+val json_decoder_parseValue :
+  nat -> z -> bytes -> (((bytes * bytes) * z) * json_err option) option
+
+val json_expand : z -> z
+
+val json_below : z -> z -> z
+
+val json_contains : z -> z -> z
+
+val json_escapeIndex : nat -> bytes -> bool -> z option
+
+val json_Valid : nat -> bytes -> bool option
+
+val is_ws : z -> bool
+
+val skip_ws : bytes -> bytes
+
+val is_digit : z -> bool
+
+val is_hex : z -> bool
+
+val is_escape_letter : z -> bool
+
+val g_string : bytes -> bytes option
+
+val skip_digits : bytes -> bytes
+
+val g_frac : bytes -> bytes option
+
+val g_exp : bytes -> bytes option
+
+val g_number : bytes -> bytes option
+
+val g_value : nat -> bytes -> bytes option
+
+val g_valid : bytes -> bool
+
+val max_depth_from : z -> z -> bool -> bool -> bytes -> z
+
+val max_depth : bytes -> z
+
+val std_valid : bytes -> bool
+
+val needs_escape_json : bool -> z -> bool
+
+val first_index : (z -> bool) -> z -> bytes -> z
